@@ -10,7 +10,13 @@ import (
 )
 
 func init() {
-	registry["C16I"] = checkFn{"model_checking", func(r *ev.Run, _ string) { c16.RunInter(r) }}
+	registry["C16I"] = checkFn{"model_checking", func(r *ev.Run, replay string) {
+		if r.Tier == "replay" {
+			c16.ReplayInter(replay)
+			return
+		}
+		c16.RunInter(r)
+	}}
 	workers["C16I"] = func(a []string) {
 		i, _ := strconv.Atoi(a[1])
 		n, _ := strconv.Atoi(a[2])
